@@ -281,7 +281,19 @@ func (ch *c08Child) render(c *c08Cfg) string {
 		}
 		// rotate the lines by the id so that file order differs from execution order
 		k := c.ID % len(lines)
+		var logs []string
+		for _, l := range lines {
+			if strings.HasPrefix(l, "log ") {
+				logs = append(logs, l)
+			}
+		}
 		lines = append(lines[k:], lines[:k]...)
+		// ... but the lines of ONE directive keep their order (their startup callbacks run in file order)
+		for i, l := range lines {
+			if strings.HasPrefix(l, "log ") {
+				lines[i], logs = logs[0], logs[1:]
+			}
+		}
 		text.WriteString(key + " {\n\t" + strings.Join(lines, "\n\t") + "\n}\n")
 	}
 	out := text.String()
